@@ -25,6 +25,7 @@ import (
 	"runtime/debug"
 	"sort"
 	"strings"
+	"sync"
 
 	log "github.com/sirupsen/logrus"
 	"golang.org/x/crypto/sha3"
@@ -201,6 +202,7 @@ type gen struct {
 
 	nBase, nBaseAccepted, nMutants, nMutRejected int
 	err                                          error
+	pool                                         []poolItem // transactions with their sequential verdict, for the concurrent stage
 }
 
 func (g *gen) newSigner(ckd bool, path [][]byte) *signer {
@@ -504,6 +506,13 @@ func vmChain(tx *types.Tx, blk *bc.Block) (gasAt []int64, errs []error) {
 	return
 }
 
+type poolItem struct {
+	tx       *types.Tx
+	blk      *bc.Block
+	accepted bool
+	kind     string
+}
+
 type checked struct {
 	accepted bool
 	err      error
@@ -522,6 +531,14 @@ func (g *gen) check(tx *types.Tx, blk *bc.Block, kind, what string, input int, i
 	st := g.c.Stats
 	err, panicked := safeValidate(tx.Tx, blk)
 	res := &checked{accepted: err == nil, err: err}
+	if !panicked && (len(g.pool) < 1500 || g.r.Chance(10)) {
+		it := poolItem{tx, blk, err == nil, kind}
+		if len(g.pool) < 1500 {
+			g.pool = append(g.pool, it)
+		} else {
+			g.pool[g.r.Intn(len(g.pool))] = it
+		}
+	}
 	txhex, _ := tx.TxData.MarshalText()
 	desc := func(i int) map[string]interface{} {
 		return map[string]interface{}{"raw_tx": string(txhex), "serialized_size": tx.TxData.SerializedSize, "input": i, "mutation": kind,
@@ -1758,6 +1775,69 @@ func run(c *Ctx) error {
 		}
 		if g.err != nil {
 			return g.err
+		}
+	}
+	// F. concurrent validation: the validator runs its transactions on several worker goroutines
+	// (ValidateTxs) and RPC handlers validate at the same time. Every transaction validated while
+	// others are being validated must get the verdict it got alone; an accepted mutant here is a
+	// spend without a matching witness. Verdicts are schedule-independent facts: any divergence is
+	// a violation, agreement proves nothing.
+	if len(g.pool) > 0 {
+		workers, rounds := 8, c.N(1500, 6000)
+		type div struct {
+			it  poolItem
+			got bool
+		}
+		divs := make(chan div, workers)
+		var wg sync.WaitGroup
+		for w := 0; w < workers; w++ {
+			wg.Add(1)
+			rr := NewRng(c.Seed*1000003 + uint64(w))
+			go func() {
+				defer wg.Done()
+				for k := 0; k < rounds; k++ {
+					it := g.pool[rr.Intn(len(g.pool))]
+					err, panicked := safeValidate(it.tx.Tx, it.blk)
+					if panicked || (err == nil) != it.accepted {
+						select {
+						case divs <- div{it, err == nil}:
+						default:
+						}
+						return
+					}
+				}
+			}()
+		}
+		wg.Wait()
+		close(divs)
+		st.Distribution["concurrent-validations"] = workers * rounds
+		for d := range divs {
+			txhex, _ := d.it.tx.TxData.MarshalText()
+			st.Fail(fmt.Sprintf("class=concurrent-verdict-differs: %s transaction validated alone: accepted=%v; validated while 7 other goroutines validate other transactions: accepted=%v", d.it.kind, d.it.accepted, d.got),
+				map[string]interface{}{"raw_tx": string(txhex), "mutation": d.it.kind})
+			break
+		}
+		// the batch API: results[i] must describe transaction i
+		for rep := 0; rep < c.N(20, 80); rep++ {
+			var txs []*bc.Tx
+			var want []bool
+			blk := g.pool[0].blk
+			for k := 0; k < 12; k++ {
+				it := g.pool[r.Intn(len(g.pool))]
+				if it.blk != blk {
+					continue
+				}
+				txs = append(txs, it.tx.Tx)
+				want = append(want, it.accepted)
+			}
+			res := validation.ValidateTxs(txs, blk, converter)
+			for i := range txs {
+				if i < len(res) && (res[i].GetError() == nil) != want[i] {
+					st.Fail(fmt.Sprintf("class=concurrent-verdict-differs: ValidateTxs result %d of a %d-transaction batch says accepted=%v, the transaction alone: accepted=%v", i, len(txs), res[i].GetError() == nil, want[i]), map[string]interface{}{"batch": len(txs), "index": i})
+					rep = 1 << 30
+					break
+				}
+			}
 		}
 	}
 	st.Distribution["model_evaluated"] = c.Cases.Len()
